@@ -13,6 +13,8 @@ op   = ["code", int, hex|None] | ["set", T, [T...]] | ["add", T, T] | ["rm", T] 
      | ["cookie", T, T, {"expires","domain","path","max_age","comment": T|None}, secure, httpOnly, T|None]
      | ["write", hex]
 T    = {"b": hex}  (bytes)  |  {"s": [code points]}  (str)
+or   {"wh": {"v11": bool, "code": int, "reason": hex, "pairs": [[T, T]...], "body": hex}}: HTTPChannel.writeHeaders called
+     directly with the documented backwards-compatibility iterable of (name, value) pairs, then channel.write(body)
 """
 from __future__ import annotations
 
@@ -216,6 +218,9 @@ def digest(b: bytes) -> str:
 
 def model_equal(case, impl_obs: str, model_obs: str) -> bool:
     """the model prints a digest of the bytes instead of the bytes"""
+    if impl_obs.startswith("wh:"):
+        oc, _, hexdata = impl_obs.partition("|")
+        return f"{oc}|{digest(bytes.fromhex(hexdata))}" == model_obs
     try:
         head, parsed = impl_obs.split("#", 1)
         oc, hexdata, closing = head.split("|")
@@ -224,7 +229,30 @@ def model_equal(case, impl_obs: str, model_obs: str) -> bool:
     return f"{oc}|{digest(bytes.fromhex(hexdata))}|{closing}#{parsed}" == model_obs
 
 
+def _impl_wh(w) -> str:
+    from twisted.internet.testing import StringTransport
+    from twisted.web import http
+    from twisted.web.http_headers import InvalidHeaderName
+
+    ch = http.HTTPChannel()
+    ch.timeOut = None
+    t = StringTransport()
+    ch.makeConnection(t)
+    oc = "."
+    try:
+        ch.writeHeaders(b"HTTP/1.1" if w["v11"] else b"HTTP/1.0", b"%d" % w["code"], bytes.fromhex(w["reason"]),
+                        [(_text(n), _text(v)) for n, v in w["pairs"]])
+        ch.write(bytes.fromhex(w["body"]))
+    except InvalidHeaderName:
+        oc = "N"
+    except UnicodeEncodeError:
+        oc = "U"
+    return "wh:" + oc + "|" + t.value().hex()
+
+
 def impl(case) -> str:
+    if "wh" in case:
+        return _impl_wh(case["wh"])
     outcomes, data, closing = _emit(case)
     heads = [r["head"] for r in case["reqs"]][:len(outcomes)]
     try:
@@ -415,7 +443,79 @@ def _h11_parse(case, data, closing, n):
     return out
 
 
+def _oracle_wh(case, obs):
+    """the pair form: refused as a whole with nothing written, or a head that parses to exactly those headers"""
+    w = case["wh"]
+    oc, _, hexdata = obs[3:].partition("|")
+    data = bytes.fromhex(hexdata)
+    names = [_enc(n, latin1=True) for n, _ in w["pairs"]]
+    vals = [_enc(v) for _, v in w["pairs"]]
+    bad_name = [n for n, raw in zip(names, w["pairs"]) if n is None or TOKEN_RE.fullmatch(n) is None]
+    unenc = any(v is None for v in vals)
+    if oc != ".":
+        if data:
+            return Failure(case, f"writeHeaders raised but {len(data)} bytes reached the transport", "pair-form-partial-write")
+        if not bad_name and not unenc:
+            return Failure(case, "writeHeaders refused valid (name, value) pairs", "pair-form-valid-refused")
+        return None
+    if bad_name:
+        return Failure(case, f"writeHeaders((name, value) pairs) accepted the header name {bad_name[0]!r}, which is not a token; "
+                             f"on the wire: {data[:120]!r}", "pair-form-invalid-name-accepted")
+    if unenc:
+        return Failure(case, "writeHeaders accepted an unencodable value", "pair-form-unencodable-accepted")
+    m = _STATUS.match(data)
+    if not m:
+        return Failure(case, "status line does not parse", "pair-form-unparseable")
+    try:
+        hs, pos = _fields(data, m.end())
+    except ParseError as e:
+        return Failure(case, f"head does not parse: {e}", "pair-form-unparseable")
+    want: dict[bytes, list[bytes]] = {}
+    for n, v in zip(names, vals):
+        want.setdefault(n.lower(), []).append(_sanitised(v))
+    have: dict[bytes, list[bytes]] = {}
+    for k, v in hs:
+        have.setdefault(k.lower(), []).append(v)
+    if have != want or int(m.group(2)) != w["code"]:
+        return Failure(case, f"head carries {have}, the pairs were {want}", "pair-form-headers")
+    if data[pos:] != bytes.fromhex(w["body"]):
+        return Failure(case, "bytes after the head are not the body written", "pair-form-body")
+    # h11 on the same bytes (close-delimited), where its grammar admits the values and no framing header is among the pairs
+    if all(_h11_ok(v) for vs in want.values() for v in vs) and _h11_ok(_sanitised(bytes.fromhex(w["reason"]))) \
+            and not ({b"content-length", b"transfer-encoding", b"connection"} & set(want)) and 200 <= w["code"] <= 999 \
+            and w["code"] not in (204, 304):
+        import h11
+
+        c = h11.Connection(h11.CLIENT, max_incomplete_event_size=1 << 24)
+        c.send(h11.Request(method="GET", target="/x", headers=[("Host", "h")]))
+        c.send(h11.EndOfMessage())
+        c.receive_data(data)
+        c.receive_data(b"")
+        try:
+            resp, body = None, b""
+            while True:
+                ev = c.next_event()
+                if isinstance(ev, h11.Response):
+                    resp = ev
+                elif isinstance(ev, h11.Data):
+                    body += bytes(ev.data)
+                elif isinstance(ev, (h11.EndOfMessage, h11.ConnectionClosed)) or ev is h11.NEED_DATA:
+                    break
+        except Exception as e:
+            if type(e).__name__ not in ("RemoteProtocolError", "LocalProtocolError"):
+                raise
+            return Failure(case, f"h11 rejects the head: {e}", "pair-form-h11-rejects")
+        got = {}
+        for k, v in (resp.headers if resp else []):
+            got.setdefault(bytes(k), []).append(bytes(v))
+        if resp is None or got != want or body != bytes.fromhex(w["body"]):
+            return Failure(case, f"h11 reads {got} / {body[:30]!r}", "pair-form-h11-disagrees")
+    return None
+
+
 def oracle(case, obs):
+    if "wh" in case:
+        return _oracle_wh(case, obs)
     head, _, _parsed = obs.partition("#")
     oc_s, hexdata, closing = head.split("|")
     outcomes = oc_s.split("/") if oc_s or len(case["reqs"]) else []
@@ -574,6 +674,14 @@ def _op(op) -> str:
 
 
 def to_coq(case):
+    if "wh" in case:
+        w = case["wh"]
+        pairs = coq_list([f"({_t(n)}, {_t(v)})" for n, v in w["pairs"]], "(text * text)%type")
+        return (f"(inr (mkCfg {coq_bool(w['v11'])} false false, {w['code']}%N, {_hx(w['reason'])}, {pairs}, {_hx(w['body'])}))")
+    return "(inl " + _to_coq_conn(case) + ")" if _to_coq_conn(case) is not None else None
+
+
+def _to_coq_conn(case):
     if sum(len(op[1]) // 2 for r in case["reqs"] for op in r["ops"] if op[0] == "write") > 6000:
         return None
     for r in case["reqs"]:
@@ -684,7 +792,7 @@ def _header_op(rng):
             ss = _as_text(rng, rng.choice([b"lax", b"Strict", b"STRICT", b"LAX", b"", b"none", b"lax;x", b"strict\r\n"]))
         return ["cookie", _as_text(rng, _val_bytes(rng, 0.4) or b"k"), _as_text(rng, _val_bytes(rng, 0.4)), a,
                 rng.random() < 0.3, rng.random() < 0.3, ss]
-    code = rng.choice([200, 200, 201, 204, 304, 301, 404, 500, 599, 600, 999, rng.randrange(200, 600)])
+    code = rng.choice([200, 200, 201, 204, 205, 206, 304, 301, 404, 500, 599, 600, 999, rng.randrange(200, 600)])
     if rng.random() < 0.04:
         code = rng.choice([100, 101, 199, 99, 1000, 0])
     msg = None
@@ -794,6 +902,41 @@ def gen(rng, tier):
                         cases.append({"split": False, "reqs": [{"v11": v11, "head": head, "close": False, "ops": ops},
                                                                {"v11": True, "head": False, "close": True,
                                                                 "ops": [["write", b"next".hex()]]}]})
+    # HTTPChannel.writeHeaders called directly with (name, value) pairs (legacy / WSGI-ish callers): hostile names and values
+    def wh(pairs, body=b"body", v11=True, code=200, reason=b"OK"):
+        return {"wh": {"v11": v11, "code": code, "reason": reason.hex(), "pairs": pairs, "body": body.hex()}}
+
+    okp = [{"b": b"Content-Type".hex()}, {"b": b"text/plain".hex()}]
+    hostile = BAD_NAMES + [b"Set-Cookie: sid=evil; X", b"Foo Bar", b"X-A\r\nX-B", b"x\n", b"\nx", b"x:", b":x", b"x\x00y", b"na\xefve", b" x", b"x "]
+    for nm in hostile:
+        for t in ({"b": nm.hex()}, {"s": list(nm)}):
+            for pos in (0, 1):
+                pairs = [okp, okp]
+                pairs[pos] = [t, {"b": b"v".hex()}]
+                cases.append(wh(pairs))
+            cases.append(wh([[t, {"b": b"v".hex()}]], body=b""))
+    for _ in range(150 if tier == "quick" else 2500):
+        pairs = [[_name(rng), _as_text(rng, _val_bytes(rng))] for _ in range(rng.choice([0, 1, 1, 2, 3, 5]))]
+        cases.append(wh(pairs, body=_body(rng, tier)[:40], v11=rng.random() < 0.7,
+                        code=rng.choice([200, 200, 404, 204, 304, 500]),
+                        reason=rng.choice([b"OK", b"", b"Not Found", b"a\r\nb", b"x\ny"])))
+    # systematic: EVERY status code the module knows (and some it does not) x {streamed, sized, HTTP/1.0, HEAD, no write},
+    # each followed by a pipelined request: only 204 / 304 (and HEAD) may go without a body and without framing
+    from twisted.web import http as _http
+    codes = sorted({c for c in _http.RESPONSES if 200 <= c <= 999} | {209, 226, 299, 300, 399, 418, 451, 499, 511, 599, 600, 999})
+    clh = {"b": b"content-length".hex()}
+    nxt = {"v11": True, "head": False, "close": True, "ops": [["write", b"next".hex()]]}
+    for code in codes:
+        body = [["write", b"ab".hex()], ["write", b"cde".hex()]]
+        variants = [
+            {"v11": True, "head": False, "close": False, "ops": [["code", code, None]] + body},
+            {"v11": True, "head": False, "close": False, "ops": [["code", code, None], ["set", clh, [{"b": b"5".hex()}]]] + body},
+            {"v11": False, "head": False, "close": False, "ops": [["code", code, None]] + body},
+            {"v11": True, "head": True, "close": False, "ops": [["code", code, None]] + body},
+            {"v11": True, "head": False, "close": False, "ops": [["code", code, None]]},
+        ]
+        for v in variants:
+            cases.append({"split": False, "reqs": [v, nxt]})
     # systematic: Content-Length / Transfer-Encoding present with an empty value list, by every route
     cl, te = {"b": b"content-length".hex()}, {"b": b"Transfer-Encoding".hex()}
     for v11 in (True, False):
@@ -857,6 +1000,14 @@ def corpus():
 
 
 def shrink(case):
+    if "wh" in case:
+        w = case["wh"]
+        for i in range(len(w["pairs"])):
+            if len(w["pairs"]) > 1:
+                yield {"wh": {**w, "pairs": w["pairs"][:i] + w["pairs"][i + 1:]}}
+        if w["body"]:
+            yield {"wh": {**w, "body": ""}}
+        return
     reqs = case["reqs"]
     if len(reqs) > 1:
         for i in range(len(reqs)):
@@ -870,11 +1021,15 @@ def shrink(case):
 
 
 def _hist(case, obs):
+    if "wh" in case:
+        return "writeHeaders((name, value) pairs)"
     r = case["reqs"][0]
     return f"reqs={len(case['reqs'])} first={'1.1' if r['v11'] else '1.0'}{'/HEAD' if r['head'] else ''}"
 
 
 def describe(case):
+    if "wh" in case:
+        return case
     return {"split": case.get("split"), "reqs": [{**r, "ops": [op if op[0] != "write" or len(op[1]) < 80 else ["write", op[1][:80] + "..."]
                                                                  for op in r["ops"]][:12]} for r in case["reqs"]]}
 
@@ -884,15 +1039,15 @@ SPEC = Spec(
     gen=gen, impl=impl, oracle=oracle, corpus=corpus, shrink=shrink, describe=describe, histogram=_hist,
     regen=lambda: tr.generate(REPO, os.path.join(COQ, "C20", "Gen.v")),
     coq_header="From TwLib Require Import HttpRespBytes.\nFrom C20 Require Import Model Gen Run.",
-    coq_fn="run_show2",
+    coq_fn="run_case",
     to_coq=to_coq, model_equal=model_equal,
-    nontrivial=lambda c, o: len(o) > 40 and not o.endswith("#ERR"),
+    nontrivial=lambda c, o: len(o) > 40 and not o.endswith("#ERR") and not o.startswith(("wh:N", "wh:U")),
     rule="450 (quick) / 3000 (thorough) random connections of 1-3 pipelined requests (HTTP/1.0|1.1 x GET|HEAD x "
          "Connection: close), each a script of setResponseCode / setRawHeaders / setHeader / addRawHeader / removeHeader / "
          "addCookie / write calls with names and values over bytes 0-255 and str code points (incl. > 255, surrogates), "
          "CR/LF/CRLF placed in every sanitised position, body sizes at 0,1,15,16,17,255,256,257 (thorough also 4095-4097), "
          "declared Content-Length (right, padded, wrong), header calls after the first write; plus every break sequence at "
-         "every offset of a short value in each sanitised place, and the framing matrix version x method x {200,204,304,404} x "
+         "every offset of a short value in each sanitised place, every status code of http.RESPONSES (>= 200) and 12 unknown ones x {streamed, sized, HTTP/1.0, HEAD, no write} each followed by a pipelined request, and the framing matrix version x method x {200,204,304,404} x "
          "Content-Length x write pattern followed by a second pipelined request; non-trivial = the reference parser accepts "
          "the bytes; distinct by (case, observation)",
     trusted=["hand-written model coq/C20/Model.v part 2 (tied by this correspondence run: exact bytes on the transport)",
